@@ -252,8 +252,10 @@ with cstmt (c : nat) (sl : option nat) (s : stmt) (st : cst) {struct s} : list c
                       end in
     let '(ca, st) := cexpr c a st in
     let '(cb_, st) := cexpr c b st in
-    let endr := lregn (S (lreg st)) in
-    let st := {| fid := fid st; lreg := S (lreg st); fbuf := fbuf st |} in
+    (* both bounds are evaluated before the counter receives its first value: L#start holds the lower bound meanwhile *)
+    let startr := lregn (S (lreg st)) in
+    let endr := lregn (S (S (lreg st))) in
+    let st := {| fid := fid st; lreg := S (S (lreg st)); fbuf := fbuf st |} in
     let cond := [I OP_LOAD_FAST [idn]; I OP_LOAD_FAST [endr]; I OP_BIN_OP [if incl then op_le else op_lt]] in
     let '(cbody, st) := cblock (Some 1) body st in
     let '(cstep, st) := match step with
@@ -262,10 +264,11 @@ with cstmt (c : nat) (sl : option nat) (s : stmt) (st : cst) {struct s} : list c
     let cstep := cstep ++ [I OP_BIN_OP_ASSIGN [[43; 61]%N; idn]] in
     let full := cbody ++ cstep in
     let full := full ++ [I OP_JMP_POP [neg_off (1 + length cond + length full)]] in
-    let st := {| fid := fid st; lreg := lreg st - (match name with Some _ => 1 | None => 2 end); fbuf := fbuf st |} in
-    (ca ++ [I (if collide then OP_STORE else OP_STORE_FAST) [idn]] ++ cb_ ++ [I OP_STORE_FAST [endr]] ++ cond
+    let st := {| fid := fid st; lreg := lreg st - (match name with Some _ => 2 | None => 3 end); fbuf := fbuf st |} in
+    (ca ++ [I OP_STORE_FAST [startr]] ++ cb_ ++ [I OP_STORE_FAST [endr]; I OP_LOAD_FAST [startr];
+                                                  I (if collide then OP_STORE else OP_STORE_FAST) [idn]] ++ cond
         ++ [I OP_WHILE_LOOP [sN (length full + 1)]] ++ resolve (length full) (length cstep) 0 full
-        ++ (if collide then [] else [I OP_DELETE_NAME_SCOPED [idn; endr]]), st)
+        ++ (if collide then [] else [I OP_DELETE_NAME_SCOPED [idn; startr; endr]]), st)
   | SBreak => ([CBrk (match sl with Some n => n | None => 0 end)], st)
   | SContinue => ([CCont (match sl with Some n => n | None => 0 end)], st)
   | SReturn None => ([I OP_RET []], st)
